@@ -1341,7 +1341,7 @@ class Session(AbstractSession):
         for src, snk in zip(field_sources, field_sinks):
             src_ = val.field_from_parameter(self, 'field_sources', src)
             snk_ = val.field_from_parameter(self, 'field_sinks', snk)
-            ops.ordered_map_valid_stream_old(src_, map_, snk_, invalid=invalid)
+            ops.ordered_map_valid_stream(src_, map_, snk_, invalid=invalid)
 
     def ordered_merge_left(self, left_on, right_on, right_field_sources=tuple(), left_field_sinks=None,
                            left_to_right_map=None, left_unique=False, right_unique=False):
@@ -1393,10 +1393,14 @@ class Session(AbstractSession):
                 raise ValueError("Right key must not have duplicates")
             else:
                 if streamable:
-                    has_unmapped = \
-                        ops.generate_ordered_map_to_left_right_unique_streamed_old(left_on, right_on,
-                                                                                   left_to_right_map,
-                                                                                   ops.INVALID_INDEX)
+                    # the map is generated by the maintained streaming generator: the deprecated
+                    # *_streamed_old helper drops the trailing unmatched left rows, loses the matches
+                    # of a run of left keys split by a chunk end and cannot handle empty keys
+                    left_f = val.field_from_parameter(self, 'left_on', left_on)
+                    right_f = val.field_from_parameter(self, 'right_on', right_on)
+                    map_f = val.field_from_parameter(self, 'left_to_right_map', left_to_right_map)
+                    ops.generate_ordered_map_to_left_right_unique_streamed(
+                        left_f, right_f, map_f, ops.INVALID_INDEX, rdtype=map_f.data.dtype)
                     result = left_to_right_map
                 else:
                     result = np.zeros(len(left_on), dtype=np.int64)
